@@ -1,10 +1,10 @@
 #!/bin/sh
-# Runs the repository's test suite (hooks: none; guard off) and checks every BASELINE stable_pass test passed.
-# usage: tools/run_baseline.sh [repo_dir]   (spark-parametrised tests are always-fail in the baseline and deselected for speed)
+# Runs the repository's test suite exactly as the baseline does (guard off: there are no source hooks) and
+# checks every BASELINE stable_pass test passed. usage: tools/run_baseline.sh [repo_dir] [-n N]
 REPO="${1:-/repo}"
 OUT="$(mktemp -d /tmp/verif-baseline-XXXX)"
-cd "$REPO" && /venv/bin/python -m pytest -q -p no:cacheprovider --timeout=900 --continue-on-collection-errors \
-   -n 12 -k "not spark" --junitxml="$OUT/junit.xml" > "$OUT/log.txt" 2>&1
+cd "$REPO" && /venv/bin/python -m pytest -ra -q -p no:cacheprovider --timeout=900 --continue-on-collection-errors \
+   ${2:+-n $2} --junitxml="$OUT/junit.xml" > "$OUT/log.txt" 2>&1
 tail -3 "$OUT/log.txt"
 python3 - "$OUT/junit.xml" <<'PY'
 import json, sys, xml.etree.ElementTree as ET
@@ -18,10 +18,11 @@ for tc in ET.parse(sys.argv[1]).getroot().iter('testcase'):
 missing = [t for t in stable if t not in res]
 failed = [t for t in stable if t in res and not res[t]]
 print(f"stable_pass={len(stable)} passed={sum(1 for t in stable if res.get(t))} failed={len(failed)} missing={len(missing)}")
-for t in failed[:20]: print("FAILED", t)
+for t in failed[:30]: print("FAILED", t)
 for t in missing[:10]: print("MISSING", t)
 sys.exit(1 if failed or missing else 0)
 PY
 rc=$?
+cp "$OUT/log.txt" /tmp/baseline_last_log.txt
 rm -rf "$OUT"
 exit $rc
